@@ -1,0 +1,45 @@
+//go:build verif
+// +build verif
+
+// Package c20 re-exports what the C20 harness (tree changes and blob cache) needs from the
+// internal packages.  Type aliases, constants and function variables only.
+package c20
+
+import (
+	"gopkg.in/src-d/hercules.v10/internal"
+	"gopkg.in/src-d/hercules.v10/internal/core"
+	"gopkg.in/src-d/hercules.v10/internal/plumbing"
+)
+
+// TreeDiff is plumbing.TreeDiff.
+type TreeDiff = plumbing.TreeDiff
+
+// BlobCache is plumbing.BlobCache.
+type BlobCache = plumbing.BlobCache
+
+// CachedBlob is plumbing.CachedBlob.
+type CachedBlob = plumbing.CachedBlob
+
+// PipelineItem is core.PipelineItem.
+type PipelineItem = core.PipelineItem
+
+// Configuration keys and dependency names.
+const (
+	DependencyCommit                       = core.DependencyCommit
+	DependencyIsMerge                      = core.DependencyIsMerge
+	DependencyIndex                        = core.DependencyIndex
+	DependencyTreeChanges                  = plumbing.DependencyTreeChanges
+	DependencyBlobCache                    = plumbing.DependencyBlobCache
+	ConfigTreeDiffEnableBlacklist          = plumbing.ConfigTreeDiffEnableBlacklist
+	ConfigTreeDiffBlacklistedPrefixes      = plumbing.ConfigTreeDiffBlacklistedPrefixes
+	ConfigTreeDiffLanguages                = plumbing.ConfigTreeDiffLanguages
+	ConfigTreeDiffFilterRegexp             = plumbing.ConfigTreeDiffFilterRegexp
+	ConfigBlobCacheFailOnMissingSubmodules = plumbing.ConfigBlobCacheFailOnMissingSubmodules
+)
+
+// Read-only state accessors and the dummy blob constructor.
+var (
+	TreeDiffState   = plumbing.VerifC20TreeDiffState
+	BlobCacheState  = plumbing.VerifC20BlobCacheState
+	CreateDummyBlob = internal.CreateDummyBlob
+)
